@@ -21,7 +21,7 @@ import jsonrpclib.config
 from jsonrpclib import jsonrpc
 
 logging.disable(logging.CRITICAL)
-from jsonrpclib.SimpleJSONRPCServer import (SimpleJSONRPCRequestHandler, SimpleJSONRPCServer, SimpleJSONRPCDispatcher,
+from jsonrpclib.SimpleJSONRPCServer import (PooledJSONRPCServer, SimpleJSONRPCRequestHandler, SimpleJSONRPCServer, SimpleJSONRPCDispatcher,
                                             CGIJSONRPCRequestHandler)
 from harness import netpeer
 
@@ -29,7 +29,10 @@ CHARS = {1: "aZ0 {\"", 2: "éñ¢", 3: "名€ก", 4: "𝄞😀𐍈"}
 
 
 def text_for(ws, rnd):
-    return "".join(rnd.choice(CHARS[w]) for w in ws)
+    t = "".join(rnd.choice(CHARS[w]) for w in ws)
+    if ws and ws[0] == 3 and rnd.random() < 0.5:
+        t = "\ufeff" + t[1:]            # U+FEFF is an ordinary character of a body (three bytes), also in first position
+    return t
 
 
 class ScriptedFile(object):
@@ -209,8 +212,8 @@ def leg_emit(rnd, rundir, n):
                 pass
         peer.close()
     # (2) replies of a real HTTP server, read by a raw client socket
-    cfg = jsonrpclib.config.Config(content_type="application/json")
-    srv = SimpleJSONRPCServer(("127.0.0.1", 0), logRequests=False, config=cfg)
+    cfg = jsonrpclib.config.Config(content_type=rnd.choice(["application/json", "application/jsonrequest", "text/x-verif"]))
+    srv = rnd.choice([SimpleJSONRPCServer, PooledJSONRPCServer])(("127.0.0.1", 0), logRequests=False, config=cfg)
     srv.register_function(lambda x: x, "echo")
     th = threading.Thread(target=srv.serve_forever, kwargs={"poll_interval": 0.01}, daemon=True)
     th.start()
